@@ -20,6 +20,10 @@ type DocxOptions struct {
 	// BodyStyle: paragraph style given to plain paragraphs when a styles
 	// part exists: "" (none), "Normal", "BodyText".
 	BodyStyle string
+	// OutlineKeepsBodyStyle: a heading authored by a direct w:outlineLvl also
+	// names the body paragraph style (the same style later plain paragraphs
+	// use) — direct formatting on top of a non-heading style.
+	OutlineKeepsBodyStyle bool
 }
 
 const (
@@ -95,6 +99,9 @@ func WriteDocx(d *logical.Doc, o DocxOptions) []byte {
 			outl := -1
 			if sid == "" {
 				outl = h.Level - 1
+				if o.OutlineKeepsBodyStyle && d.HasStyles {
+					sid = o.BodyStyle
+				}
 			}
 			body.WriteString(w.para(&h.Para, pPr(sid, 0, -1, outl)))
 		case logical.BList:
